@@ -69,7 +69,9 @@ def getDomainInto : Nat → P → Nat → Out (Name × P)
         pure (rest, p2)
     else .err "labeltype"
 
-def getDomain (p : P) : Out (Name × P) := getDomainInto (nameFuel p.buf) p 1
+def getDomain (p : P) : Out (Name × P) := do
+  let (d, p') ← getDomainInto (nameFuel p.buf) p 1
+  if DnsWire.wireLen d > Generated.Dns.nameOctetLimit then .err "nametoolong" else pure (d, p')
 
 /-- `EdnsParser::get_options` over the rdata of an OPT record -/
 def ednsOptions : Nat → Bytes → Out (List (Nat × Bytes))
